@@ -322,7 +322,7 @@ class NullWalk(object):
                     if t is not None and t["k"] == "ref" and t["n"] in C:
                         C.discard(t["n"])
                 if n["k"] == "call" and n.get("c"):
-                    tgt = self.db.funcs.get(n.get("cm"))
+                    tgt = self.db.func_of_call(f, n)
                     if tgt is not None:
                         ps = tgt.d["params"]
                         for ai, a in enumerate(n.get("a", ())):
